@@ -268,6 +268,7 @@ func (m *mappers) ToCharGroup(r comb.Result) (comb.Result, bool) {
 
 	// Characters beyond the ASCII range cannot be indexed in charMap and are tracked separately.
 	var others []rune
+	seen := map[rune]bool{}
 
 	charMap := make([]bool, len(parser.RuneClasses["ASCII"].Runes()))
 	for _, r := range items {
@@ -275,7 +276,8 @@ func (m *mappers) ToCharGroup(r comb.Result) (comb.Result, bool) {
 			for _, c := range chars {
 				if c >= 0 && int(c) < len(charMap) {
 					charMap[c] = true
-				} else if !containsRune(c, others) {
+				} else if !seen[c] {
+					seen[c] = true
 					others = append(others, c)
 				}
 			}
